@@ -249,6 +249,39 @@ def region_of(mem_type, arch):
     return None
 
 
+def tile_padding_shifts(op, cmd, npu_op):
+    """Per-tile tag shift of the IFM of a `Padding.TILE` operation, [0, 0, 0, 0] otherwise.
+
+    The RESIZE_BILINEAR (half-pixel) lowering emits depthwise convolutions that read the IFM box padded by one
+    row and/or column of *replicated edge values* (explicit_padding = (top, left, bottom, right) in {0, 1});
+    Vela implements the replication by re-pointing the four IFM tiles (create_padding ->
+    modify_tile_addresses_for_padding) and programming zero NPU padding.  The logical element behind the
+    box-relative coordinate (y, x) is therefore (clamp(y - top, 0, H-1), clamp(x - left, 0, W-1)), and the tag the
+    bytes of tile t must carry is displaced by the canonical distance between the logical and the nominal
+    coordinate of the tile's first element.  Computed from the operation's padding direction, the IFM box and the
+    strides only -- NOT from the emitted tile addresses, so a wrong tile address is still rejected by the Lean
+    machine."""
+    from ethosu.vela.operation import Padding
+
+    if op.attrs.get("padding", None) != Padding.TILE or npu_op.ifm is None:
+        return [0, 0, 0, 0]
+    top, left, _bottom, _right = [int(v) for v in op.attrs["explicit_padding"]]
+    sc, ec = list(cmd.ifm_box.start_coord), list(cmd.ifm_box.end_coord)
+    H, W = int(ec[-3] - sc[-3]), int(ec[-2] - sc[-2])
+    t = npu_op.ifm.tiles
+    h0, h1, w0 = int(t.height_0), int(t.height_1), int(t.width_0)
+    sy, sx = int(npu_op.ifm.strides.height), int(npu_op.ifm.strides.width)
+
+    def clamp(v, hi):
+        return max(0, min(v, hi - 1))
+
+    out = []
+    for ys, xs in ((0, 0), (0, w0), (h0, 0), (h1, w0)):      # first element of tile 0..3 (NPU tile order)
+        ly, lx = clamp(ys - top, H), clamp(xs - left, W)
+        out.append((ly - ys) * sy + (lx - xs) * sx)
+    return out
+
+
 def stream_line(art, extents, extra_init=()):
     """Build the `streamcheck` request for one captured stream. `extents` = {region: bytes}."""
     from ethosu.vela.high_level_command_stream import DMA, NpuStripe
@@ -268,11 +301,14 @@ def stream_line(art, extents, extra_init=()):
 
     def fminfo(tens, box, offs):
         if tens is None or box is None:
-            return "0,0,0,0,0"
+            return "0,0,0,0,0,0,0,0"
         sc = list(box.start_coord)
         while len(sc) < 4:
             sc.insert(0, 0)
-        return f"{tids.tid(tens)},{sc[-3]},{sc[-2]},{sc[-1]},{int(offs)}"
+        offs = [int(o) for o in offs]
+        assert len(offs) == 4, offs
+        # one offset per tile, in NPU tile order (create_feature_map: addresses[idx] += offset)
+        return f"{tids.tid(tens)},{sc[-3]},{sc[-2]},{sc[-1]}," + ",".join(map(str, offs))
 
     for npu_op in art.npu_ops:
         cmd = art.op_to_cmd[npu_op]
@@ -291,9 +327,10 @@ def stream_line(art, extents, extra_init=()):
             continue
         assert isinstance(cmd, NpuStripe)
         op = cmd.ps.primary_op
-        ifm = fminfo(cmd.ifm_tensor, cmd.ifm_box, op.tile_base_offsets_ifm[0][0])
-        ifm2 = fminfo(cmd.ifm2_tensor, cmd.ifm2_box, op.tile_base_offsets_ifm[1][0]) if cmd.ifm2_tensor is not None else "0,0,0,0,0"
-        ofm = fminfo(cmd.ofm_tensor, cmd.ofm_box, op.tile_base_offsets_ofm[0])
+        ifm_offs = [int(a) + int(b) for a, b in zip(op.tile_base_offsets_ifm[0], tile_padding_shifts(op, cmd, npu_op))]
+        ifm = fminfo(cmd.ifm_tensor, cmd.ifm_box, ifm_offs)
+        ifm2 = fminfo(cmd.ifm2_tensor, cmd.ifm2_box, op.tile_base_offsets_ifm[1]) if cmd.ifm2_tensor is not None else "0,0,0,0,0,0,0,0"
+        ofm = fminfo(cmd.ofm_tensor, cmd.ofm_box, op.tile_base_offsets_ofm)
         wsrc, ssrc = [], []
         if cmd.weight_tensor is not None:
             wt = cmd.weight_tensor
